@@ -121,15 +121,17 @@ CLAIMED = {
    text="Mostly bounded. Under contract: PureScheduler.topological_order (every member yielded exactly once, requirements first), which orders the "
         "numbering, the node statements and the listing; and the numbering itself: _set_sched_ids / Scheduler._set_sched_id / AbstractJob._set_sched_id "
         "assign tree-wide pairwise distinct numbers (each subtree a contiguous interval, a scheduler before its content, a requirement before what "
-        "requires it), for trees of any size and depth. The statement itself is about the text dot_format() returns and what list() prints; no contract within "
+        "requires it), for trees of any size and depth; the node counts behind the id width (PureScheduler._total_length = number of nodes below, "
+        "Scheduler._job_count = subtree size, verified on the mechanically desugared sum(...)); and PureScheduler._middle_index >= 0, which keeps the "
+        "variable the edge anchor is read from bound. The statement itself is about the text dot_format() returns and what list() prints; no contract within "
         "reach of the SMT encoding decides a string grammar, so the deciding part is a bounded check of the real code: an independent DOT-subset parser "
         "reads the output back and compares nodes, clusters (nesting), edges (with ltail/lhead resolved), labels after unquoting and the flag attributes with "
         "the tree, and the output of list() is read back, over the enumerated trees stated in the evidence. Labelled bounded, never counted as proved.",
    note="Bounded: trees up to depth 3, <= 4 members per level, 27 label strings. dot_format() raises for a nested scheduler without any atomic job that takes "
-        "part in a requirement (known finding, listed in known_findings.json). The dot binary is not installed, so 'syntactically valid' means accepted by the "
-        "parser in replay/dotcheck.py, written from the DOT grammar.",
+        "part in a requirement (known finding, listed in known_findings.json). 'Syntactically valid' means accepted by the parser in replay/dotcheck.py, "
+        "written from the DOT grammar, and, where the graphviz dot binary is present (recorded per case in the evidence), rendered by it and read back.",
    tech="bounded check of the real code standing in for contracts (DOT-subset parser + structural comparison, exhaustive small trees and seeded random trees); "
-        "contract-based deductive verification (AST->SMT, z3 + cvc5) only for topological_order"),
+        "contract-based deductive verification (AST->SMT, z3 + cvc5) for topological_order, the numbering, the node counts and _middle_index"),
  'C17': dict(cat='proof', design='6/C17',
    text="Contracts on _backlinks, _neighbours (specialised for the two attribute names), predecessors, successors, "
         "_neighbours_closure, predecessors_upstream, successors_downstream, entry_jobs, exit_jobs. Closures are specified as least "
